@@ -299,6 +299,10 @@ def run_check(prop, tier, seed, replay=None):
         still = mod.replay_finding(ctx, f)
         if still:
             kf_lines.append(f"KNOWN-FINDING: property={prop} {f['id']} {f['what']}")
+    listed = {f["id"] for f in known.get("findings", []) if f["property"] == prop}
+    for x in res.failures:
+        if x.get("known") and x["known"] not in listed:
+            x["unlisted_known"] = x.pop("known")      # an attribution the known-findings file does not back: a new failure
     new_failures = [x for x in res.failures if not x.get("known")]
 
     # 6 verdict
@@ -313,7 +317,7 @@ def run_check(prop, tier, seed, replay=None):
         ctx2.hints = res.disagreements[:20]
         try:
             r2 = mod.search(ctx2) if hasattr(mod, "search") else mod.run(ctx2)
-            new_failures = [x for x in r2.failures if not x.get("known")]
+            new_failures = [x for x in r2.failures if not (x.get("known") and x["known"] in listed)]
             res.extra["search_evaluations"] = r2.evaluations
         except Exception as e:  # noqa
             notes.append("search phase error: %r" % (e,))
